@@ -45,6 +45,9 @@ func (e *Engine) atomicMode() bool { return e.rootC != nil && e.rootC.Mode == "a
 // interfere: other goroutines may have changed any shared abstract state.
 func (e *Engine) interfere(st *State) {
 	e.havocMaps(st)
+	if len(st.chanHeap) > 0 {
+		e.chanInterfere(st, nil)
+	}
 	for name, gv := range e.cs.GhostVars {
 		if v, ok := st.ghost[name]; ok {
 			st.ghost[name] = Val{T: nil, L: []Term{e.ctx.Fresh("ghost_if_"+name, v.L[0].Sort)}, G: gv}
